@@ -124,5 +124,19 @@ func checks() map[string]CheckDef {
 		Outside: []string{"gin's route matching (a path parameter equal to a static sibling segment such as 'byHeight' is routed to the parameter route here)", "JSON encoding of response bodies; malformed JSON is modelled as 'binding fails'", "numerals in non-canonical form ('+5', '007') are outside the string model", "storage failures (none injected: a 5xx would then be legitimate)"},
 		Stubs:   []string{"gin.Context model, sqlx over sqlm, webhook target client never called"},
 	})
+	add(CheckDef{
+		ID: "C10", Level: "model_checking",
+		Runs: []HRun{
+			{Pkg: "internal/zzverif/c10", Func: "HarnessOps", Quick: [][]int64{{1, 2}, {2, 3}}, Thorough: [][]int64{{2, 4}, {3, 3}, {4, 2}},
+				Labels: []string{"C10/authenticates-iff-admin-or-issued-and-not-revoked", "C10/admin-flag-exact", "C10/admin-always-authenticates-as-admin", "C10/issued-token-authenticates-at-once", "C10/create-succeeds"}},
+			{Pkg: "internal/zzverif/c10", Func: "HarnessRevokeRace", Quick: [][]int64{{2}}, Thorough: [][]int64{{3}},
+				Labels: []string{"C10/revoked-token-never-authenticates-afterwards", "C10/other-tokens-unaffected-by-revocation", "C10/revoke-succeeds"}},
+			{Pkg: "transports/websocket", Func: "HarnessConnect", Quick: [][]int64{{1, 1}, {1, 0}}, Thorough: [][]int64{{3, 1}, {2, 0}},
+				Labels: []string{"C10/websocket-handshake-accepts-iff-token-valid", "C10/websocket-handshake-open-when-auth-off"}},
+		},
+		Bounds:  []string{"every sequence of n operations (quick n<=3, thorough n<=4) drawn from create / revoke(arbitrary value) / authenticate(arbitrary value), from an arbitrary tokens table of k rows (k<=4), arbitrary non-empty admin token; validity is checked through an arbitrary probe token against a set model", "websocket connect handshake: arbitrary token against the same stores, authentication on and off"},
+		Outside: []string{"pairwise distinctness of issued tokens is a property of uniuri's randomness: it is ASSUMED (a colliding token would be dropped silently by ON CONFLICT DO NOTHING)", "restarts: TokenService holds no state but the configured admin token, the table is SQLite's", "operations overlapping in time, except: one authentication of the same token served at any storage-operation boundary inside a revocation (HarnessRevokeRace)", "the centrifuge transport; only the OnConnecting handler registered by setupNode is executed"},
+		Stubs:   []string{"uniuri.NewLen returns an arbitrary string", "centrifuge.Node: OnConnecting stores the handler, which the harness invokes (natively read back from the node by reflection)"},
+	})
 	return m
 }
